@@ -333,18 +333,23 @@ Section NetProof.
     - apply TP.reachable_init.
     - intros i s Li Bi Hs. cbn in Hs. apply nth_repeat in Hs. subst s.
       assert (NK : forall v, ~ known i (env i (net_init n)) init v).
-      { intros v [H|[r [t [d [c [[] _]]]]]]. apply in_env in H as [H _]. exact (soup_init H). }
+      { intros v [H|[r [t [d [c [[] _]]]]]]. apply in_env in H as [H _]. exact (@soup_init v H). }
       constructor.
       + apply (ib_inv (InvB_init (Z.of_nat i))).
       + apply InvD_init.
-      + constructor; cbn; auto; try discriminate; try lia.
+      + constructor.
         * apply TP.reachable_init.
         * split; [auto|apply incl_refl].
         * intro m. split; [intros []|intros [v [K _]]; exact (NK v K)].
-        * intros u Hu. exfalso. exact (hvs_has_nil Hu).
+        * cbn. discriminate.
+        * cbn. discriminate.
+        * intros u Hu. exfalso. exact (@hvs_has_nil u Hu).
         * intros e u [].
+        * cbn. discriminate.
+        * cbn. lia.
         * intros r t d k [].
-        * intros v Hv. exfalso. exact (soup_init Hv).
+        * reflexivity.
+        * intros v Hv. exfalso. exact (@soup_init v Hv).
   Qed.
 
   (* ---------------- one event of the network (crash-free part) ---------------- *)
@@ -375,5 +380,195 @@ Section NetProof.
     - eapply InvD_dsame; [apply ds_set_outs, dsame_refl|auto].
     - intros E T0 K0 T HS. eapply Sim_ssame; [|exact HS]. constructor; cbn; auto; tauto.
   Qed.
+
+  Lemma step_ev_restart own d s :
+    status_ s = Down ->
+    step_ev n own blocks d ERestart None s =
+    (let s' := restart n own blocks d (set_outs [] None s) in
+     if blown s' then set_status (match status_ s' with Decided => Decided | _ => Down end) s' else s').
+  Proof.
+    intro H. unfold step_ev. change (status_ (set_outs [] None s)) with (status_ s). rewrite H. reflexivity.
+  Qed.
+
+  Lemma soup_wf net T v : NetInv net T -> In v (soup net) -> 0 <= v_from v < Z.of_nat n /\ 0 <= v_round v.
+  Proof.
+    intros NI Hv.
+    apply in_soup in Hv as [H|[k [sk [A [B [r [t [d [c [C ->]]]]]]]]]].
+    - apply (ni_byz NI), legal_byz_spec in H. tauto.
+    - cbn. assert (L : (k < n)%nat) by (rewrite <- (ni_len NI); apply nth_error_Some; congruence).
+      split; [lia|]. apply (sm_sent (no_sim (ni_nodes NI L B A)) _ _ _ _ C).
+  Qed.
+
+  Lemma NodeOK_P net T i s : NodeOK net T i s -> P n byz i (env i net) T (nsoup net) s.
+  Proof. intros [HI HD HS]. constructor; eauto. Qed.
+
+  (* ================================================================== *)
+  (* Stage 1: histories without crashes (every engine is started once)  *)
+
+  Definition restarts (evs : list nev) : list nat := flat_map ev_restart_of evs.
+
+  (* an engine that may still be started has never run *)
+  Definition fresh_ok (net : netstate) (T : TM.state) (rs : list nat) : Prop :=
+    forall i s, (i < n)%nat -> byz i = false -> nth_error (nodes net) i = Some s ->
+      (s = init /\ TM.lock T i = None) \/ ~ In i rs.
+
+  Lemma fresh_ok_weaken net T l rs : fresh_ok net T (l ++ rs) -> fresh_ok net T rs.
+  Proof.
+    intros F i s Li Bi Hs. destruct (F i s Li Bi Hs) as [H|H]; auto. right. intro K. apply H. apply in_or_app; auto.
+  Qed.
+
+  Lemma net_step_nocrash net T e rs :
+    NetInv net T -> fresh_ok net T (ev_restart_of e ++ rs) ->
+    ev_fuse_none e = true -> ev_is_crash e = false ->
+    (forall i, In i (ev_restart_of e) -> ~ In i rs) ->
+    exists T', NetInv (net_step n byz blocks net e) T' /\ fresh_ok (net_step n byz blocks net e) T' rs.
+  Proof.
+    intros NI FO Fz Cr ND. pose proof (fresh_ok_weaken _ _ FO) as FO'.
+    destruct e as [i [[ev fz] d]|v]; cbn [net_step fst snd].
+    - (* an engine event *)
+      destruct fz; [discriminate Fz|].
+      destruct (nth_error (nodes net) i) as [s|] eqn:Hs; [|exists T; auto].
+      destruct (legal_event (soup net) ev) eqn:Lg; [|exists T; auto].
+      assert (Li : (i < n)%nat) by (rewrite <- (ni_len NI); apply nth_error_Some; congruence).
+      assert (Li' : (i < length (nodes net))%nat) by (rewrite (ni_len NI); auto).
+      destruct (byz i) eqn:Bi.
+      { (* an engine in a Byzantine slot: invisible *)
+        exists T. split.
+        - eapply NetInv_idle; eauto; intro; congruence.
+        - intros j sj Lj Bj Hj. assert (j <> i) by congruence.
+          cbn in Hj. rewrite nth_error_set_nth_other in Hj; auto. }
+      pose proof (ni_nodes NI Li Bi Hs) as OK. pose proof (NodeOK_P OK) as P0.
+      unfold node_step. cbn [fst snd].
+      destruct (ev_plain ev) eqn:Pl.
+      + destruct (status_ s) eqn:R.
+        * (* a running engine takes a step *)
+          assert (P' := P_step_ev blocks Li Bi (env_ok i NI) d ev P0 Pl (legal_ev_k0 _ _ Lg)).
+          destruct (NetInv_node_step NI Li Bi Hs P') as [T' [NI' Fr]].
+          exists T'. split; auto. intros j sj Lj Bj Hj. destruct (Nat.eq_dec j i) as [->|Ne].
+          -- right. destruct (FO' i s Li Bi Hs) as [[E0 _]|H0]; auto. subst s. discriminate R.
+          -- cbn in Hj. rewrite nth_error_set_nth_other in Hj; auto.
+             destruct (FO' j sj Lj Bj Hj) as [[E0 L0]|H0]; auto. left. split; auto. rewrite Fr; auto.
+        * (* stopped *)
+          rewrite step_ev_idle; auto; [|congruence].
+          destruct (@idle_ok i s (no_inv OK) (no_invd OK) (sm_fuse (no_sim OK))) as [I1 [I2 I3]].
+          exists T. split.
+          -- eapply NetInv_idle; eauto. intros _ v. cbn. tauto.
+          -- intros j sj Lj Bj Hj. destruct (Nat.eq_dec j i) as [->|Ne].
+             ++ cbn in Hj. rewrite nth_error_set_nth_same in Hj; auto. inversion Hj; subst sj.
+                destruct (FO' i s Li Bi Hs) as [[E0 L0]|H0]; auto. left. subst s. split; auto.
+             ++ cbn in Hj. rewrite nth_error_set_nth_other in Hj; auto.
+        * rewrite step_ev_idle; auto; [|congruence].
+          destruct (@idle_ok i s (no_inv OK) (no_invd OK) (sm_fuse (no_sim OK))) as [I1 [I2 I3]].
+          exists T. split.
+          -- eapply NetInv_idle; eauto. intros _ v. cbn. tauto.
+          -- intros j sj Lj Bj Hj. destruct (Nat.eq_dec j i) as [->|Ne].
+             ++ cbn in Hj. rewrite nth_error_set_nth_same in Hj; auto. inversion Hj; subst sj.
+                destruct (FO' i s Li Bi Hs) as [[E0 L0]|H0]; auto. subst s. discriminate R.
+             ++ cbn in Hj. rewrite nth_error_set_nth_other in Hj; auto.
+      + destruct ev; try discriminate Pl; [discriminate Cr|].
+        (* the start of the engine *)
+        cbn [ev_restart_of app] in FO, ND.
+        destruct (FO i s Li Bi Hs) as [[E0 L0]|H0]; [|exfalso; apply H0; left; auto]. subst s.
+        rewrite step_ev_restart; [|reflexivity].
+        change (set_outs [] None init) with init. cbv zeta.
+        assert (P' := P_restart_init blocks Li Bi (env_ok i NI) d (no_sim OK) L0).
+        unfold blown. rewrite (P_fuse P').
+        destruct (NetInv_node_step NI Li Bi Hs P') as [T' [NI' Fr]].
+        exists T'. split; auto. intros j sj Lj Bj Hj. destruct (Nat.eq_dec j i) as [->|Ne].
+        * right. apply ND. left; auto.
+        * cbn in Hj. rewrite nth_error_set_nth_other in Hj; auto.
+          destruct (FO j sj Lj Bj Hj) as [[E1 L1]|H1].
+          -- left. split; auto. rewrite Fr; auto.
+          -- right. intro K. apply H1. right; auto.
+    - (* a Byzantine vote *)
+      destruct (legal_byz n byz v) eqn:Lg; [|exists T; auto].
+      destruct (NetInv_byz v NI Lg) as [T' [NI' Fr]]. exists T'. split; auto.
+      intros j sj Lj Bj Hj. cbn in Hj. destruct (FO' j sj Lj Bj Hj) as [[E0 L0]|H0]; auto.
+      left. split; auto. rewrite Fr; auto.
+  Qed.
+
+  Lemma run_net_nocrash evs : forall net T,
+    NetInv net T -> fresh_ok net T (restarts evs) ->
+    forallb ev_fuse_none evs = true -> forallb (fun e => negb (ev_is_crash e)) evs = true ->
+    nodup_nat (restarts evs) = true ->
+    exists T', NetInv (run_net_from n byz blocks net evs) T'.
+  Proof.
+    induction evs as [|e evs IH]; intros net T NI FO Fz Cr ND; cbn [run_net_from fold_left].
+    - exists T; auto.
+    - cbn in Fz, Cr. apply andb_true_iff in Fz as [Fz1 Fz2]. apply andb_true_iff in Cr as [Cr1 Cr2].
+      apply negb_true_iff in Cr1.
+      unfold restarts in *. cbn [flat_map] in FO, ND.
+      assert (ND' : (forall i, In i (ev_restart_of e) -> ~ In i (flat_map ev_restart_of evs)) /\
+                    nodup_nat (flat_map ev_restart_of evs) = true).
+      { destruct e as [i [[ev fz] d]|v]; cbn [ev_restart_of] in *; try (split; [intros ? []|exact ND]).
+        destruct ev; cbn [app] in *; try (split; [intros ? []|exact ND]).
+        cbn in ND. apply andb_true_iff in ND as [N1 N2]. split; auto.
+        intros j [<-|[]] K. apply negb_true_iff in N1.
+        assert (existsb (Nat.eqb i) (flat_map ev_restart_of evs) = true); [|congruence].
+        apply existsb_exists. exists i. split; auto. apply Nat.eqb_refl. }
+      destruct ND' as [ND1 ND2].
+      destruct (net_step_nocrash (e:=e) NI FO Fz1 Cr1 ND1) as [T' [NI' FO']].
+      apply (IH _ T'); auto.
+  Qed.
+
+  Lemma no_crash_inv evs : no_crash evs = true -> exists T, NetInv (run_net n byz blocks evs) T.
+  Proof.
+    unfold no_crash. rewrite !andb_true_iff. intros [[A B] C].
+    apply (@run_net_nocrash evs (net_init n) TM.init); auto using NetInv_init.
+    intros i s Li Bi Hs. left. cbn in Hs. apply nth_repeat in Hs. auto.
+  Qed.
+
+  (* ---------------- what the invariant gives ---------------- *)
+
+  Lemma inv_agreement net T :
+    NetInv net T -> (3 * nbyz n byz < n)%nat ->
+    forall i j v w, correct n byz i -> correct n byz j ->
+      decided_of net i = Some v -> decided_of net j = Some w -> v = w.
+  Proof.
+    intros NI Hb i j v w [Li Bi] [Lj Bj] Di Dj. unfold decided_of in *.
+    destruct (nth_error (nodes net) i) as [si|] eqn:Hi; [|discriminate].
+    destruct (nth_error (nodes net) j) as [sj|] eqn:Hj; [|discriminate].
+    pose proof (sm_dec (no_sim (ni_nodes NI Li Bi Hi)) _ Di) as Ti.
+    pose proof (sm_dec (no_sim (ni_nodes NI Lj Bj Hj)) _ Dj) as Tj.
+    exact (TP.tm_agreement n byz Hb T i j v w (ni_reach NI) (correct_i n byz i Li Bi) (correct_i n byz j Lj Bj) Ti Tj).
+  Qed.
+
+  Lemma inv_finalize_needs_quorum net T :
+    NetInv net T -> (3 * nbyz n byz < n)%nat ->
+    forall i b, correct n byz i -> decided_of net i = Some b ->
+      exists r, 0 <= r /\ over23 (count_precommits (soup net) n r b) n = true.
+  Proof.
+    intros NI Hb i b [Li Bi] Di. unfold decided_of in *.
+    destruct (nth_error (nodes net) i) as [si|] eqn:Hi; [|discriminate].
+    pose proof (no_sim (ni_nodes NI Li Bi Hi)) as HS.
+    pose proof (sm_dec HS _ Di) as Ti.
+    destruct (TP.tm_decide_needs_quorum n byz Hb T i b (ni_reach NI) Ti) as [r Q].
+    exists (Z.of_N r). split; [lia|].
+    unfold TM.qprecommit, TM.quorum in Q.
+    change (TM.over23 (TM.countn (fun k => has_vote_of (soup net) k (Z.of_N r) Precommit (Some b)) n) n = true).
+    eapply TP.over23_mono; [|exact Q]. apply TP.countn_mono. intros k Lk Hk.
+    apply TP.has_vote_In in Hk. apply (sm_soup HS) in Hk as [v [K C]].
+    apply (known_env v (ni_byz NI) Bi Hi) in K. destruct (soup_wf NI K) as [W1 W2].
+    unfold has_vote_of. apply existsb_exists. exists v. split; auto.
+    unfold conv in C. inversion C. 
+    rewrite !andb_true_iff. repeat split.
+    - apply Z.eqb_eq. lia.
+    - apply Z.eqb_eq. lia.
+    - destruct (v_type v); [discriminate|reflexivity].
+    - rewrite H3. apply dec_eqb_refl.
+  Qed.
+
+  Theorem agreement_no_crash evs :
+    no_crash evs = true -> (3 * nbyz n byz < n)%nat ->
+    forall i j v w, correct n byz i -> correct n byz j ->
+      decided_of (run_net n byz blocks evs) i = Some v ->
+      decided_of (run_net n byz blocks evs) j = Some w -> v = w.
+  Proof. intros NC Hb. destruct (no_crash_inv NC) as [T NI]. exact (inv_agreement NI Hb). Qed.
+
+  Theorem finalize_needs_quorum_no_crash evs :
+    no_crash evs = true -> (3 * nbyz n byz < n)%nat ->
+    forall i b, correct n byz i -> decided_of (run_net n byz blocks evs) i = Some b ->
+      exists r, 0 <= r /\ over23 (count_precommits (soup (run_net n byz blocks evs)) n r b) n = true.
+  Proof. intros NC Hb. destruct (no_crash_inv NC) as [T NI]. exact (inv_finalize_needs_quorum NI Hb). Qed.
 
 End NetProof.
